@@ -18,6 +18,7 @@ struct vin {
     uint32_t mask;
     uint32_t d[C13_NOUT];
     uint8_t  topo;
+    uint8_t  rootcons;                  /* bit k: the root itself consumes output k */
 } vin;
 #include "verif_vin.h"
 
@@ -43,6 +44,12 @@ void h_lemma(void)
         if ((mask >> k) & 1u) V_ASSUME(vin.d[k] != 0);
     }
 
+    /* The root evaluates its contract on the sets it recorded (remote consumers only, parsec_release_dep_fct); a
+     * forwarder evaluates its contract on the sets REBUILT by parsec_gather_collective_pattern, which contain the
+     * root's own position 0 whenever the root consumes the output. */
+    uint32_t dr[C13_NOUT];
+    for (int k = 0; k < C13_NOUT; k++) dr[k] = vin.d[k] | ((vin.rootcons >> k) & 1u);
+#define DSET(q) ((q) == 0 ? vin.d : dr)
 #ifdef NESTFREE
     /* restricted domain on which chain / binomial do deliver every payload: the destination sets of two outputs
      * of the mask are either disjoint or equal (then a forwarder in the tree of first(b) holds whatever b consumes) */
@@ -57,13 +64,13 @@ void h_lemma(void)
     for (int b = 1; b < C13_NPMAX; b++) {
         activated[b] = 0; from[b] = -1;
         for (int q = 0; q < C13_NPMAX; q++)
-            if (q < b && b < np && activated[q] && spec_sends(topo, mask, vin.d, np, q, b)) { activated[b] = 1; from[b] = q; }
+            if (q < b && b < np && activated[q] && spec_sends(topo, mask, DSET(q), np, q, b)) { activated[b] = 1; from[b] = q; }
     }
     /* pass 2: count the activations handed to each position by ALL activated positions */
     for (int b = 0; b < C13_NPMAX; b++) {
         recv[b] = 0;
         for (int q = 0; q < C13_NPMAX; q++)
-            if (q < np && b < np && q != b && activated[q] && spec_sends(topo, mask, vin.d, np, q, b)) {
+            if (q < np && b < np && q != b && activated[q] && spec_sends(topo, mask, DSET(q), np, q, b)) {
                 recv[b]++;
 #if !PAYLOAD_ONLY
                 V_ASSERT(q < b, "C13.composition.lemma.parent_precedes_child");
@@ -84,7 +91,7 @@ void h_lemma(void)
         int q = from[b];                                             /* the unique sender */
         for (int k = 0; k < C13_NOUT; k++) {
             int consumes = ((mask >> k) & 1u) && ((vin.d[k] >> b) & 1u);
-            int packed = spec_packed(mask, vin.d, q, k, b);
+            int packed = spec_packed(mask, DSET(q), q, k, b);
 #if !PAYLOAD_ONLY
             {
                 V_ASSERT(V_IMPLIES(packed, consumes), "C13.composition.lemma.no_payload_for_an_output_the_destination_does_not_consume");
